@@ -195,6 +195,9 @@ type Exec struct {
 	work     []*State
 
 	curResults []resTerm // handles on the values being returned (set while postconditions are checked)
+	mentions      map[string]bool
+	callsiteHit   map[string]bool // callees with `callsite requires` clauses that were actually called
+	ranToEnd      bool
 	entryRegions  map[*Term]bool // initial symbols of heap regions (state at function entry)
 	readEntryOnly bool
 	wfNA          *Term
@@ -567,6 +570,7 @@ func (ex *Exec) Run() (err error) {
 		}
 		ex.runPath()
 	}
+	ex.ranToEnd = true
 	return nil
 }
 
@@ -760,6 +764,7 @@ func (ex *Exec) step(fr *Frame, ins ssa.Instruction) {
 		p := ex.reg(fr, x.Addr)
 		v := ex.reg(fr, x.Val)
 		ex.nilCheck(p, x, "store")
+		ex.fieldWriteObligations(fr, x, p, v)
 		ex.doStore(p, v)
 	case *ssa.UnOp:
 		fr.regs[x] = ex.unop(fr, x)
@@ -903,6 +908,41 @@ func (ex *Exec) step(fr *Frame, ins ssa.Instruction) {
 func (ex *Exec) nilCheck(p Val, ins ssa.Instruction, what string) {
 	// nil dereference obligations are only generated for pointers that may be nil by declaration
 	_ = what
+}
+
+// fieldWriteObligations: `fieldwrite f requires e` clauses of the type block of the struct a store writes into (blocks
+// tagged with the property under verification): a two-state condition over self (the struct), was (the value being
+// replaced) and now (the value stored).
+func (ex *Exec) fieldWriteObligations(fr *Frame, ins *ssa.Store, p Val, v Val) {
+	fp, ok := p.(FieldPtr)
+	if !ok || ex.dry != nil {
+		return
+	}
+	named, ok := fp.Own.(*types.Named)
+	if !ok || named.Obj().Pkg() == nil {
+		return
+	}
+	c := ex.prog.Types[fkey(named.Obj().Pkg().Path(), "type "+named.Obj().Name())]
+	if c == nil || len(c.FieldWrite) == 0 {
+		return
+	}
+	tagged := false
+	for _, pr := range c.Props {
+		if pr == currentProperty {
+			tagged = true
+		}
+	}
+	if !tagged {
+		return
+	}
+	fname := fp.ST.Field(fp.Idx).Name()
+	for i, cl := range c.FieldWrite[fname] {
+		env := ex.envFor(fr, nil)
+		env.vars["self"] = fp.Base
+		env.vars["was"] = ex.load(p)
+		env.vars["now"] = v
+		ex.oblige("fieldwrite", ex.siteOf(ins, fmt.Sprintf("%s.%s:%03d", named.Obj().Name(), fname, i)), ins.Pos(), "at every store to "+named.Obj().Name()+"."+fname+": "+cl.Text, ex.evalBool(cl.E, env))
+	}
 }
 
 func (ex *Exec) doStore(p Val, v Val) {
@@ -1088,6 +1128,23 @@ func posString(prog *Program, p token.Pos) string {
 
 // finalize names obligations deterministically: <fn>/<kind>#<k>, k in site order per kind.
 func (ex *Exec) finalize() {
+	// vacuity guard for `callsite <callee> requires` clauses: a clause whose callee the function never calls constrains
+	// nothing (the call it was written for is gone)
+	if ex.contract != nil && ex.ranToEnd {
+		var names []string
+		for n := range ex.contract.CallSites {
+			names = append(names, n)
+		}
+		sort.Strings(names)
+		for _, n := range names {
+			if ex.callsiteHit[n] || len(ex.contract.CallSites[n]) == 0 {
+				continue
+			}
+			ob := &Obligation{Kind: "callsite-reach", Site: n, Pos: ex.root.Pos(), Fn: relName(ex.root), Text: "the function calls " + n + " (its contract constrains every call of it: `" + ex.contract.CallSites[n][0].Text + "`), but no call of it is left"}
+			ob.Paths = append(ob.Paths, ObPath{Cond: ex.ts.False()})
+			ex.oblList = append(ex.oblList, ob)
+		}
+	}
 	byKind := map[string][]*Obligation{}
 	for _, o := range ex.oblList {
 		byKind[o.Kind] = append(byKind[o.Kind], o)
